@@ -145,11 +145,11 @@ ATOMIC_LAYER = {  # package dir -> layer letter of its sync/atomic uses
 }
 
 
-def make_copy(instrument=True, extra_files=None):
+def make_copy(instrument=True, extra_files=None, dst_name="repo", sync_pkgs=("queue", "adder")):
     """copy /repo's CURRENT working tree (non-test sources) into the scratch dir; if `instrument`, rewrite the
     sync/atomic (and, in the mutex files, sync) imports to the shims. Returns (ok, message)."""
     s = scratch_dir()
-    dst = os.path.join(s, "repo")
+    dst = os.path.join(s, dst_name)
     shutil.rmtree(dst, ignore_errors=True)
     for root, dirs, files in os.walk(REPO):
         dirs[:] = [d for d in dirs if d not in (".git",)]
@@ -181,7 +181,7 @@ def make_copy(instrument=True, extra_files=None):
                 path = os.path.join(pdir, fn)
                 txt = open(path).read()
                 new = re.sub(r'^(\s*)"sync/atomic"', rf'\1atomic "garrshim/vatomic/{layer}"', txt, flags=re.M)
-                if pkg in ("queue", "adder"):
+                if pkg in sync_pkgs:
                     new = re.sub(r'^(\s*)"sync"\s*$', r'\1sync "garrshim/vsync"', new, flags=re.M)
                 if new != txt:
                     open(path, "w").write(new)
@@ -197,17 +197,17 @@ def make_copy(instrument=True, extra_files=None):
 EXTRA_ADDER = {"adder/zz_verif.go": "package adder\n\n// VerifSetMaxCells overrides the table-size limit (scratch copy only).\nfunc VerifSetMaxCells(n int) { maxCells = n }\n\n// VerifMaxCells returns the current limit.\nfunc VerifMaxCells() int { return maxCells }\n"}
 
 
-def build_harness(name, go="go", gover="1.23", test_binary=False, repo_dir="repo", real_fastrand=False, build=True):
+def build_harness(name, go="go", gover="1.23", test_binary=False, repo_dir="repo", real_fastrand=False, build=True, out_name=None):
     """build /verif/harness/<name> against the scratch copy; returns (binary or None, output)"""
     s = scratch_dir()
-    hdst = os.path.join(s, "h_" + name)
+    hdst = os.path.join(s, "h_" + (out_name or name))
     shutil.rmtree(hdst, ignore_errors=True)
     shutil.copytree(os.path.join(HARNESS, name), hdst)
     open(os.path.join(hdst, "go.mod"), "w").write(
         f"module garrharness/{name}\n\ngo {gover}\n\nrequire go.linecorp.com/garr v0.0.0\nrequire garrshim v0.0.0\nrequire github.com/valyala/fastrand v1.1.0\n"
         f"replace go.linecorp.com/garr => ../{repo_dir}\n" "replace garrshim => ../shim\n" + ("" if real_fastrand else "replace github.com/valyala/fastrand => ../shim/fastrand\n"))
     shutil.copy2(os.path.join(s, "repo", "go.sum"), os.path.join(hdst, "go.sum")) if os.path.exists(os.path.join(s, "repo", "go.sum")) else None
-    binp = os.path.join(s, "bin_" + name)
+    binp = os.path.join(s, "bin_" + (out_name or name))
     if not build:
         return binp, ""
     cover = ["-cover", f"-coverpkg=go.linecorp.com/garr/...,garrharness/{name}"] if os.environ.get("VERIF_COVER") else []  # coverage survey (bin/cover_survey)
@@ -478,16 +478,16 @@ def run_conc(res, binp, mode, acceptor, seed, total, extra=(), tag=None, label=N
 # ----------------------------------------------------------------------------- worker pool: synctest scenarios + subset-construction acceptance
 
 
-def pool_shard(binp, seed, first, runs, tmpdir, idx, test="TestScenarios"):
-    trp = os.path.join(tmpdir, f"pooltr_{idx}_{first}.txt")
-    monp = os.path.join(tmpdir, f"poolmon_{test}_{idx}_{first}.txt")
-    env = dict(os.environ, POOL_SEED=str(seed), POOL_FIRST=str(first), POOL_RUNS=str(runs), POOL_TRACE=trp, POOL_MON=monp)
+def pool_shard(binp, seed, first, runs, tmpdir, idx, test="TestScenarios", chaos=0):
+    trp = os.path.join(tmpdir, f"pooltr_{idx}_{first}_{chaos}.txt")
+    monp = os.path.join(tmpdir, f"poolmon_{test}_{idx}_{first}_{chaos}.txt")
+    env = dict(os.environ, POOL_SEED=str(seed), POOL_FIRST=str(first), POOL_RUNS=str(runs), POOL_TRACE=trp, POOL_MON=monp, POOL_CHAOS=str(chaos))
     covflag = [f"-test.gocoverdir={os.environ['GOCOVERDIR']}"] if os.environ.get("VERIF_COVER") else []
     # a scenario that hangs (e.g. a goroutine parked on a lock that a panicking call never released) must not hang the check
     tmo = max(120, runs // 15) if test == "TestScenarios" else max(300, 3 * runs // 1000 + 120)
     p = subprocess.run([binp, "-test.run", f"^{test}$", "-test.timeout", f"{tmo}s", *covflag], env=env, stdout=subprocess.PIPE, stderr=subprocess.STDOUT, text=True)
     o = {"accepted": 0, "rejected": [], "mon_ok": 0, "monfail": [], "crash": None, "progs": {}, "first_accept": None,
-         "cmd": f"POOL_SEED={seed} POOL_FIRST={first} POOL_RUNS={runs} {binp} -test.run ^{test}$", "maxrunning": 0, "inconclusive": 0}
+         "cmd": f"POOL_CHAOS={chaos} POOL_SEED={seed} POOL_FIRST={first} POOL_RUNS={runs} {binp} -test.run ^{test}$", "maxrunning": 0, "inconclusive": 0}
     last_run = None
     try:
         for line in open(monp):
@@ -528,7 +528,7 @@ def pool_shard(binp, seed, first, runs, tmpdir, idx, test="TestScenarios"):
     return o
 
 
-def run_pool(res, binp, seed, total, tag, test="TestScenarios", shards=None):
+def run_pool(res, binp, seed, total, tag, test="TestScenarios", shards=None, chaos=0):
     shards = shards or min(NCPU, max(1, total // 100))
     per = (total + shards - 1) // shards
     tmpdir = scratch_dir()
@@ -536,10 +536,10 @@ def run_pool(res, binp, seed, total, tag, test="TestScenarios", shards=None):
         if test == "TestScenarios":
             outs = list(ex.map(lambda k: pool_shard(binp, seed, k * per, per, tmpdir, k, test), range(shards)))
         else:
-            outs = list(ex.map(lambda k: pool_shard(binp, seed * 100 + k, 0, per, tmpdir, k, test), range(shards)))
+            outs = list(ex.map(lambda k: pool_shard(binp, seed * 100 + k, 0, per, tmpdir, k, test, chaos), range(shards)))
     agg = {"runs": 0, "accepted": 0, "rejected": 0, "inconclusive_budget": 0, "monitor_ok": 0, "monitor_failures": 0, "distinct_programs": 0, "max_simultaneously_running": 0}
     progs = set()
-    label = "pool-" + test
+    label = "pool-" + test + ("-chaos" if chaos else "")
     for o in outs:
         agg["accepted"] += o["accepted"]
         agg["inconclusive_budget"] += o["inconclusive"]
@@ -558,8 +558,8 @@ def run_pool(res, binp, seed, total, tag, test="TestScenarios", shards=None):
             if agg["rejected"] <= 5:
                 res.add(Problem("correspondence", f"{label}: observation sequence of the real pool rejected by the Lean model", {"reject": line, "replay_cmd": o["cmd"]}, key=line[:200]))
         for k, rest in o["monfail"]:
-            mm = re.match(r"FAIL (C\d+) (.*)", rest)
-            if mm and tag and mm.group(1) != tag:
+            mm = re.match(r"FAIL (C\d+(?:,C\d+)*) (.*)", rest)  # one observation may contradict several properties: "FAIL C04,C12 …"
+            if mm and tag and tag not in mm.group(1).split(","):
                 continue
             agg["monitor_failures"] += 1
             if agg["monitor_failures"] <= 30:
@@ -581,8 +581,8 @@ PKGS = ["queue", "adder", "circuit-breaker", "worker-pool", "retry"]
 BRACKETS = {}
 
 
-def run_race(res, rounds, tag="C14", timeout=1500):
-    """race-detector stress on the UN-instrumented working tree"""
+def run_race(res, rounds, tag="C14", timeout=1500, pattern=None, only=None):
+    """race-detector stress on the UN-instrumented working tree; `pattern`: -test.run; `only`: report races whose stacks mention one of these files"""
     make_copy(instrument=False)
     binp, out = build_harness("race", real_fastrand=True, build=False)
     s = scratch_dir()
@@ -593,8 +593,10 @@ def run_race(res, rounds, tag="C14", timeout=1500):
         res.add(Problem("correspondence", "race workload does not build against the working tree", out[-1500:]))
         return None
     env = dict(os.environ, RACE_ROUNDS=str(rounds), GORACE="halt_on_error=0")
-    p = subprocess.run([binp, "-test.timeout", f"{timeout}s"], env=env, stdout=subprocess.PIPE, stderr=subprocess.STDOUT, text=True)
+    p = subprocess.run([binp, "-test.timeout", f"{timeout}s"] + (["-test.run", pattern] if pattern else []), env=env, stdout=subprocess.PIPE, stderr=subprocess.STDOUT, text=True)
     races = re.findall(r"WARNING: DATA RACE\n(.*?)\n==================", p.stdout, flags=re.S)
+    if only:
+        races = [r for r in races if any(f in r for f in only)]
     for r in races[:5]:
         res.add(Problem("monitor", "race detector: DATA RACE in a workload over the concurrent-safe API: " + " | ".join(l.strip() for l in r.split("\n")[:8])[:700],
                         {"report": r[:3000]}, key=r[:300]))
